@@ -384,6 +384,19 @@ def gen_root(rs, idx, tier):
         if isinstance(o, Bernoulli) and o.p in (0.0, 1.0):
             o.p = 1.0 / 16 if o.p == 0.0 else 15.0 / 16
     assign_ids(root)
+    if rs.rand() < 0.35:
+        # sums of equal arity start from ONE weight array object (a circuit built by hand from a common initial vector);
+        # the constructor stores an ndarray as given, so the nodes alias the caller's storage
+        from deeprob.spn.structure.node import Sum
+        by_arity = {}
+        for o in objs:
+            if isinstance(o, Sum):
+                by_arity.setdefault(len(o.children), []).append(o)
+        for grp in by_arity.values():
+            if len(grp) >= 2:
+                buf = np.array(grp[int(rs.randint(len(grp)))].weights, dtype=np.float32, copy=True)
+                for o in grp:
+                    o.weights = buf
     if rs.rand() < 0.5:
         perm = rs.permutation(len(objs))
         for o, i in zip(objs, perm):
